@@ -331,6 +331,81 @@ pub struct RawCase {
     pub bytes: Vec<u8>,
 }
 
+/// A deep, degenerate but well-formed structure, described compactly: `head`, then `unit` repeated `reps` times, then
+/// `tail`. A declared count at an extreme is only *walked* by the decoder when enough well-formed filler follows it,
+/// which neither mutation of small valid messages nor random bytes ever provide (hundreds of kilobytes of it).
+#[derive(Clone, Debug, Serialize, Deserialize)]
+pub struct DeepCase {
+    pub what: String,
+    pub head: Vec<u8>,
+    pub unit: Vec<u8>,
+    pub reps: u32,
+    pub tail: Vec<u8>,
+}
+
+impl DeepCase {
+    pub fn bytes(&self) -> Vec<u8> {
+        let mut b = Vec::with_capacity(self.head.len() + self.unit.len() * self.reps as usize + self.tail.len());
+        b.extend_from_slice(&self.head);
+        for _ in 0..self.reps {
+            b.extend_from_slice(&self.unit);
+        }
+        b.extend_from_slice(&self.tail);
+        b
+    }
+}
+
+/// The deep structures of one tier: clutter filter maps whose declared elevation-segment count (1..=65535) is backed by
+/// that many complete segments (capped by size), VCP messages with up to 65535 complete cuts, streams of hundreds /
+/// thousands of identical frames.
+pub fn deep_cases(thorough: bool) -> Vec<DeepCase> {
+    let mut out = Vec::new();
+    // clutter filter map: 6-byte header (date, time, segment count), 360 azimuth segments per elevation segment
+    let mut seg_counts: Vec<u32> = vec![5, 6, 127, 128, 129, 254, 255, 256, 257, 300, 511, 512, 513, 600];
+    if thorough {
+        seg_counts.extend(250..=262);
+        seg_counts.extend([1023, 1024, 1025, 2047, 2048, 2049, 4095, 4096, 4097]);
+    }
+    for &segs in &seg_counts {
+        for (name, azimuth) in [("no zones", vec![0u8, 0]), ("one zone", vec![0u8, 1, 0, 1, 0, 100])] {
+            if azimuth.len() > 2 && segs > 600 {
+                continue;
+            }
+            for declared in [segs, 0xFFFF] {
+                let mut head = vec![0x4Eu8, 0x20, 0x02, 0x58];
+                head.extend_from_slice(&(declared as u16).to_be_bytes());
+                out.push(DeepCase {
+                    what: format!("clutter filter map declaring {} elevation segments, {} complete ones present ({} per azimuth)", declared, segs, name),
+                    head,
+                    unit: azimuth.clone(),
+                    reps: segs * 360,
+                    tail: vec![0, 0, 0, 0],
+                });
+            }
+        }
+    }
+    // VCP: 22-byte header, cut count at offset 6, 46-byte cuts
+    for &cuts in if thorough { &[52u32, 255, 256, 257, 1000, 32767, 32768, 65535][..] } else { &[52u32, 255, 256, 257, 1000, 65535][..] } {
+        let mut head = vec![0u8; 22];
+        head[0..2].copy_from_slice(&((11 + 23 * cuts.min(2800)) as u16).to_be_bytes());
+        head[2..4].copy_from_slice(&2u16.to_be_bytes());
+        head[4..6].copy_from_slice(&212u16.to_be_bytes());
+        head[6..8].copy_from_slice(&(cuts as u16).to_be_bytes());
+        out.push(DeepCase { what: format!("VCP message with {} complete all-zero cuts", cuts), head, unit: vec![0u8; 46], reps: cuts, tail: vec![] });
+    }
+    // streams of many identical frames (type 2 = RDA status with an all-zero body, type 0 = opaque)
+    for &(t, frames) in if thorough { &[(2u8, 300u32), (0, 1100), (2, 4200), (5, 700)][..] } else { &[(2u8, 300u32), (0, 1100)][..] } {
+        let mut unit = vec![0u8; 2432];
+        unit[12..14].copy_from_slice(&1208u16.to_be_bytes());
+        unit[15] = t;
+        unit[18..20].copy_from_slice(&20_000u16.to_be_bytes());
+        unit[24..26].copy_from_slice(&1u16.to_be_bytes());
+        unit[26..28].copy_from_slice(&1u16.to_be_bytes());
+        out.push(DeepCase { what: format!("stream of {} identical type-{} frames", frames, t), head: vec![], unit, reps: frames, tail: vec![] });
+    }
+    out
+}
+
 /// Byte-inspection classifier: did some decoder get past its fixed header on this input?
 pub fn past_fixed_header(b: &[u8]) -> bool {
     let drd_direct = rd16(b, 30).map(|c| c >= 1 && b.len() >= 32 + 4 * c as usize).unwrap_or(false);
@@ -454,6 +529,29 @@ pub fn run(ctx: &Ctx, rep: &mut Report) {
         rep.sample("duplicate-pointers", json!({"pointers": 2048, "gates": 65535}));
     }
 
+    // (a3) deep degenerate structures: an extreme declared count backed by enough well-formed filler to be walked
+    {
+        let cases = deep_cases(ctx.tier == crate::runner::Tier::Thorough);
+        let mut n = 0u64;
+        let mut total_bytes = 0u64;
+        for c in &cases {
+            let bytes = c.bytes();
+            n += 1;
+            total_bytes += bytes.len() as u64;
+            if let Err(f) = check_bytes(&bytes, false) {
+                rep.record_failure("deep-structures", f, json!(c));
+            }
+        }
+        rep.enumerated(
+            "deep-structures",
+            "deep but well-formed structures, described as head + unit x reps + tail: clutter filter maps declaring 5..=4097 (and 65535) elevation segments with that many complete ones present (no zones / one zone per azimuth), VCP messages with 52..=65535 complete all-zero cuts, streams of 300..4200 identical frames; every decode entry point, no panic, memory bound",
+            n,
+            n,
+            false,
+        );
+        rep.sample("deep-structures", json!({"what": cases.first().map(|c| c.what.clone()), "cases": n, "bytes_decoded": total_bytes}));
+    }
+
     // (a') every prefix of a few small valid streams
     {
         let strat = vec(gen::msg(DrdOpts { small: true, ..DrdOpts::framing() }), 2..=3);
@@ -516,6 +614,7 @@ pub fn run(ctx: &Ctx, rep: &mut Report) {
 pub fn replay(sub: &str, case: &Value) -> Check {
     let r = match sub {
         "mutated-streams" => check_mut_case(&from_case::<MutCase>(case)?),
+        "deep-structures" => check_bytes(&from_case::<DeepCase>(case)?.bytes(), true),
         "random-bytes" | "every-length-0-128" | "every-prefix" | "fuzz" | "nontermination" => check_bytes(&from_case::<RawCase>(case)?.bytes, true),
         other => return super::unknown_sub(other),
     };
